@@ -79,16 +79,22 @@ Record proto := mkProto {
   atomic_marker : bool;      (* C25-1a: marker via temporary file + os.replace *)
   marker_last : bool;        (* C25-1b: marker written after energy and minisanity history *)
   invalidate : bool;         (* C25-2: strategy latest removes the marker before overwriting in place *)
-  prepare_all : bool         (* the seed schedule is prepared `for iglobal in range(total_iterations)`
+  prepare_all : bool;        (* the seed schedule is prepared `for iglobal in range(total_iterations)`
                                 (the code as it is); false = a variant that starts at initial_index *)
+  push_first : bool          (* `push_sseq(sseqs[iglobal])` is the FIRST statement of the loop body (the
+                                code as it is): everything an iteration draws -- start values of new
+                                latent keys (_normal_initialize), samples -- comes from its own seed
+                                sequence; false = a variant that enters the context later, so that part
+                                of the draws come from, and advance, the process-wide base generator *)
 }.
-Definition fixed_proto : proto := mkProto true true true true.
-Definition old_proto : proto := mkProto false false false true.
-(* a defective variant (not the history of the code): seed schedule prepared from initial_index on *)
-Definition cut_schedule_proto : proto := mkProto true true true false.
+Definition fixed_proto : proto := mkProto true true true true true.
+Definition old_proto : proto := mkProto false false false true true.
+(* defective variants (not the history of the code) *)
+Definition cut_schedule_proto : proto := mkProto true true true false true.   (* seed schedule from initial_index on *)
+Definition late_push_proto : proto := mkProto true true true true false.      (* stochasticity context entered late *)
 
 Section Driver.
-Variables M R E H Seed : Type.
+Variables M R E H Seed G : Type.
 Definition St : Type := (M * list R)%type.
 (* one iteration of the driver given the seed sequence pushed for it (`push_sseq(sseqs[iglobal])`) *)
 Variable step : nat -> Seed -> St -> St.
@@ -101,6 +107,13 @@ Variable h0 : H.
    resume branch restores that state before spawning, so the children are the same in every run) *)
 Variable raw : nat -> Seed.
 Variable fresh : nat -> bool.        (* fresh_stochasticity(iglobal) *)
+(* The process-wide base generator (bottom of NIFTy's generator stack).  [g0] is its state when
+   the driver is called: a fresh start stores it in pickle/nifty_random_state, the resume branch
+   restores it from there (`_load_random_state`).  [lstep] is an iteration that enters its
+   stochasticity context late (variant [push_first] = false): it may read and advance the base
+   generator.  The code as it is never does: [step] gets the iteration's own seed only. *)
+Variable g0 : G.
+Variable lstep : nat -> Seed -> G -> St -> St * G.
 
 Inductive payload :=
 | PInt (i : nat) | PRng | PRes (r : R) | PMean (m : M) | PPos (m : M) | PE (e : E) | PH (h : H) | PLog.
@@ -246,11 +259,12 @@ Fixpoint prepare (fuel i : nat) (sq : list Seed) : option (list Seed) :=
 Definition seed_at (sq : list Seed) (i : nat) : Seed := nth i sq (raw 0).
 
 (* `for iglobal in range(initial_index, total_iterations)`; fuel = total - initial_index *)
-Fixpoint loop (sq : list Seed) (fuel i : nat) (st : St) (eh : E) (d : disk) {struct fuel} : list op * outcome :=
+Fixpoint loop (sq : list Seed) (fuel i : nat) (g : G) (st : St) (eh : E) (d : disk) {struct fuel} : list op * outcome :=
   match fuel with
   | O => ([], Ok st)
   | S f =>
-      let st' := step i (seed_at sq i) st in
+      let sg' := if push_first pr then (step i (seed_at sq i) st, g) else lstep i (seed_at sq i) g st in
+      let st' := fst sg' in
       let eh' := estep i st' eh in
       let o1 := ops1 i st' eh' in
       let d1 := run_ops o1 d in
@@ -261,7 +275,7 @@ Fixpoint loop (sq : list Seed) (fuel i : nat) (st : St) (eh : E) (d : disk) {str
       match snd rd with
       | Some (PH h) =>
           let o := o1 ++ fst rd ++ ops2 i st' (hstep i st' h) in
-          let r := loop sq f (S i) st' eh' (run_ops o d) in
+          let r := loop sq f (S i) (snd sg') st' eh' (run_ops o d) in
           (o ++ fst r, snd r)
       | _ => (o1 ++ fst rd, Stuck)
       end
@@ -361,14 +375,14 @@ Definition run (resume : bool) (n : nat) (d : disk) : list op * outcome :=
           let from := if prepare_all pr then 0 else i0 in
           match prepare (n - from) from (raws n) with
           | None => (o, Stuck)
-          | Some sq => let r := loop sq (n - i0) i0 st eh (run_ops o d) in (o ++ fst r, snd r)
+          | Some sq => let r := loop sq (n - i0) i0 g0 st eh (run_ops o d) in (o ++ fst r, snd r)   (* setState(saved) *)
           end
     end
   else
     let o := prelude ++ dump RandomState PRng in
     match prepare n 0 (raws n) with
     | None => (o, Stuck)
-    | Some sq => let r := loop sq n 0 init e0 (run_ops o d) in (o ++ fst r, snd r)
+    | Some sq => let r := loop sq n 0 g0 init e0 (run_ops o d) in (o ++ fst r, snd r)
     end.
 
 Definition crashed (resume : bool) (n : nat) (d : disk) (k : nat) (lost : bool) : disk :=
@@ -465,8 +479,10 @@ Definition iinit : ist := (0%N, []).
 Definition idisk := disk N N (list N) (list N).
 Definition iraw (i : nat) : N := (17 + 19 * N.of_nat i)%N.
 Definition ifresh (i : nat) : bool := nth i freshl true.
-Definition irun := run N N (list N) (list N) N istep iestep ihstep iinit [] [] iraw ifresh pr sg.
-Definition ichain := chain N N (list N) (list N) N istep iestep ihstep iinit [] [] iraw ifresh pr sg.
+(* the late variant: the base generator enters the hash and is advanced by every iteration *)
+Definition ilstep (i : nat) (sd : N) (g : N) (st : ist) : ist * N := (istep i (sd + 31 * g)%N st, (g + 1)%N).
+Definition irun := run N N (list N) (list N) N N istep iestep ihstep iinit [] [] iraw ifresh 23%N ilstep pr sg.
+Definition ichain := chain N N (list N) (list N) N N istep iestep ihstep iinit [] [] iraw ifresh 23%N ilstep pr sg.
 Definition itrace := trace N N (list N) (list N).
 
 (* observation of one file: unloadable | loadable | a marker file holding the integer j |
